@@ -187,5 +187,5 @@ func run(c Case) vt.Verdict {
 }
 
 func TestProp(t *testing.T) {
-	vt.Run(t, prop, vt.Sub[Case]{Prop: prop, Name: "sessions", Gen: gen, Run: run, Classify: classify}.WithBudget(500, 6000))
+	vt.Run(t, prop, vt.Sub[Case]{Prop: prop, Name: "sessions", Gen: gen, Run: run, Classify: classify}.WithBudget(2000, 8000))
 }
